@@ -1680,6 +1680,11 @@ def failing_multi_field(ctx):
         reqs = [{'title': 'changed', 'body': big}, {'title': 'changed', 'state': 'error', 'claim': ''}, {'title': 'changed', 'state': 'nonsense'},
                 {'body': 'changed', 'epic': 'ZZZZZZ'}, {'title': 'changed', 'result_path': 'nope.txt', 'result_summary': 's'},
                 {'claim': 'bob', 'body': big}, {'state': 'done', 'body': big}]
+        # a refused over-long event BEHIND events that are large but legal (64 KiB … 6 MiB): nothing of the command
+        # may have been flushed by then, whatever buffering the writer uses
+        for mid in (64 * 1024, 1024 * 1024 + 7, 2 * 1024 * 1024, 6 * 1024 * 1024):
+            reqs.append({'title': 'changed', 'body': 'm' * mid, 'claim': big})
+            reqs.append({'title': 't' * mid, 'body': big})
         for f in reqs:
             before = st.read_log()
             rc, out, err = st.run(['set', tid], stdin=json.dumps(f).encode(), timeout=120)
